@@ -502,6 +502,9 @@ def get_fn_arity(f):
             if isinstance(f.args, list):
                 for q in f.args:
                     x.update(_e(q, level=1))
+            elif f.args is not None:
+                # the single operand of a monadic operator ({#x}, {-x}) is not wrapped in a list
+                x.update(_e(f.args, level=1))
         elif isinstance(f, list):
             x = set()
             for q in f:
@@ -510,5 +513,8 @@ def get_fn_arity(f):
             x = set([f]) if f in reserved_fn_symbols else set()
         else:
             x = set()
-        return x if level else len(x)
+        if level:
+            return x
+        # a function that mentions y is a dyad and one that mentions z a triad, whether or not it mentions x
+        return max((reserved_fn_symbols.index(s) + 1 for s in x), default=0)
     return _e(f)
